@@ -135,42 +135,40 @@ theorem refusals (ops : List Op) :
 example : Kind.capacity .iface = 64 - 16 ∧ Kind.capacity .mtype = 1792 - 1 ∧ Kind.capacity .basic = 64 ∧ Kind.capacity .generic = 1792 := by
   decide
 
-/-- The full size clause: every built-in type reports the size of the C type it stands for. -/
-def builtin_sizes_statement : Prop :=
-  ∀ (ops : List Op) (id : Nat) (d : Desc), builtinDesc id = some d → traits (runOps ops) id = some (.known d)
-
-/-- It does not hold: the built-in buffer pointer type and the generic vector type have no description at all
-    (known findings of C06). -/
-theorem builtin_sizes_counterexample :
-    builtinDesc TypeId.TypeBufferPtr = some { size := 8, init := false, fini := false } ∧ traits init TypeId.TypeBufferPtr = none ∧
-    builtinDesc TypeId.TypeVector = some { size := 16, init := false, fini := false } ∧ traits init TypeId.TypeVector = none := by
-  decide
-
-/-- Every other built-in type — every entry of `core_sizes`, `scalar_sizes` and the vectors made from it, the
-    built-in interfaces, the metatype pointer and the static managed types — reports, in every reachable state,
-    exactly the description S gives (the LP64 size of its C type; init/fini only for the managed types). -/
-theorem builtin_sizes_partial (ops : List Op) (id : Nat) (d : Desc) (hd : builtinDesc id = some d)
-    (h1 : id ≠ TypeId.TypeBufferPtr) (h2 : id ≠ TypeId.TypeVector) :
+/-- Every built-in type — the system, pointer and value types of `core_sizes` (buffer pointer included), every
+    scalar of `scalar_sizes`, its vector and the generic vector, the built-in interfaces, the metatype pointer and
+    the static managed types — reports, in every reachable state, exactly the description S gives: the LP64 size of
+    the C type it stands for; init/fini only for the managed types. -/
+theorem builtin_sizes (ops : List Op) (id : Nat) (d : Desc) (hd : builtinDesc id = some d) :
     traits (runOps ops) id = some (.known d) := by
-  have hall : ∀ x ∈ builtins, x.1 = TypeId.TypeBufferPtr ∨ x.1 = TypeId.TypeVector ∨
-      traits init x.1 = (builtinDesc x.1).map .known := by decide
+  have hall : ∀ x ∈ builtins, traits init x.1 = (builtinDesc x.1).map .known := by decide
   have hmem : ∃ x ∈ builtins, x.1 = id := by
     unfold builtinDesc at hd
     cases hf : builtins.find? (·.1 = id) with
     | none => simp [hf] at hd
     | some x => exact ⟨x, List.mem_of_find?_eq_some hf, by simpa using List.find?_some hf⟩
   obtain ⟨x, hx, rfl⟩ := hmem
-  rcases hall x hx with h | h | h
-  · exact absurd h h1
-  · exact absurd h h2
-  · have hinit : traits init x.1 = some (.known d) := by rw [h, hd]; rfl
-    have hext : Ext init (runOps ops) := by
-      have := runOps_ext [] ops
-      simpa [runOps] using this
-    exact traits_ext hext hinit
+  have hinit : traits init x.1 = some (.known d) := by rw [hall x hx, hd]; rfl
+  have hext : Ext init (runOps ops) := by
+    have := runOps_ext [] ops
+    simpa [runOps] using this
+  exact traits_ext hext hinit
+
+example : builtinDesc TypeId.TypeBufferPtr = some { size := 8, init := false, fini := false } ∧
+    builtinDesc TypeId.TypeVector = some { size := 16, init := false, fini := false } := by decide
 
 /-- the generated built-in tables are covered: none of their ids is one of the two excluded ones -/
-example : ∀ x ∈ TypeTab.coreSizes ++ TypeTab.scalarSizes, x.1 ≠ TypeId.TypeBufferPtr ∧ x.1 ≠ TypeId.TypeVector ∧ (builtinDesc x.1).isSome := by
+example : ∀ x ∈ TypeTab.coreSizes ++ TypeTab.scalarSizes, (builtinDesc x.1).isSome := by
+  decide
+
+/-- Wire format codes of the scalar types (message/msgvalfmt.c): every numeric scalar type has a code; the code
+    is the one message.h describes (size - 1, kind bits, native byte order); it is mapped back to the same type id
+    and encodes the size of the C type; and no other format byte is mapped to a type. -/
+theorem msgfmt_consistent :
+    (∀ t ∈ [98, 110, 105, 120, 121, 113, 117, 116, 102, 100, 101], msgCode t = specMsgCode t ∧ (msgCode t).isSome = true) ∧
+    (∀ x ∈ TypeTab.msgCodes, msgTypeid x.2 = .ok x.1 ∧
+        some (msgSize x.2) = ((scalarCTypes.find? (·.1 = x.1)).bind fun y => abiSize y.2)) ∧
+    (∀ fmt ∈ List.range 256, (match msgTypeid fmt with | .ok t => some t | _ => none) = specMsgType fmt) := by
   decide
 
 end Mpt.C06
